@@ -18,11 +18,9 @@
 use futures::{channel::oneshot, FutureExt, Stream};
 use reactive_graph::owner::Owner;
 use std::{
-    cell::RefCell,
     collections::{BTreeMap, VecDeque},
     future::Future,
     pin::Pin,
-    rc::Rc,
     sync::{
         atomic::{AtomicUsize, Ordering},
         Arc,
@@ -153,10 +151,11 @@ fn has_raw(n: &Node) -> bool {
     }
 }
 
-type Rxs = Rc<RefCell<BTreeMap<u32, oneshot::Receiver<()>>>>;
+type Rxs = Arc<std::sync::Mutex<BTreeMap<u32, oneshot::Receiver<()>>>>;
 
 fn take_rx(rxs: &Rxs, f: u32) -> oneshot::Receiver<()> {
-    rxs.borrow_mut()
+    rxs.lock()
+        .unwrap()
         .remove(&f)
         .unwrap_or_else(|| panic!("future {f} used twice"))
 }
@@ -210,22 +209,22 @@ fn build(n: &Node, rxs: &Rxs) -> AnyView {
         }
         Node::VecOf(cs) => cs.iter().map(|c| build(c, rxs)).collect::<Vec<_>>().into_any(),
         Node::Opt(c) => c.as_ref().map(|c| build(c, rxs)).into_any(),
+        // the children of the leptos components are built inside the component's children closure
+        // (as `view!` does), so that they are created under the component's owner
         Node::ErrB(c) => {
             use leptos::prelude::*;
-            let c = build(c, rxs);
-            view! { <ErrorBoundary fallback=|_errors| "ERR">{c}</ErrorBoundary> }.into_any()
+            let (c, rxs) = ((**c).clone(), rxs.clone());
+            view! { <ErrorBoundary fallback=|_errors| "ERR">{build(&c, &rxs)}</ErrorBoundary> }.into_any()
         }
         Node::Suspense(fb, c) => {
             use leptos::prelude::*;
-            let fb = build(fb, rxs);
-            let c = build(c, rxs);
-            view! { <Suspense fallback=move || fb>{c}</Suspense> }.into_any()
+            let (fb, c, rxs, rxs2) = ((**fb).clone(), (**c).clone(), rxs.clone(), rxs.clone());
+            view! { <Suspense fallback=move || build(&fb, &rxs2)>{build(&c, &rxs)}</Suspense> }.into_any()
         }
         Node::Transition(fb, c) => {
             use leptos::prelude::*;
-            let fb = build(fb, rxs);
-            let c = build(c, rxs);
-            view! { <Transition fallback=move || fb>{c}</Transition> }.into_any()
+            let (fb, c, rxs, rxs2) = ((**fb).clone(), (**c).clone(), rxs.clone(), rxs.clone());
+            view! { <Transition fallback=move || build(&fb, &rxs2)>{build(&c, &rxs)}</Transition> }.into_any()
         }
     }
 }
@@ -235,7 +234,7 @@ fn build(n: &Node, rxs: &Rxs) -> AnyView {
 mod exec {
     use std::{
         cell::RefCell,
-        collections::{BTreeMap, VecDeque},
+            collections::{BTreeMap, VecDeque},
         future::Future,
         pin::Pin,
         sync::{Arc, Mutex},
@@ -599,7 +598,7 @@ fn channels(futs: &[u32]) -> (Rxs, BTreeMap<u32, oneshot::Sender<()>>) {
         }
         txs.insert(*f, tx);
     }
-    (Rc::new(RefCell::new(rxs)), txs)
+    (Arc::new(std::sync::Mutex::new(rxs)), txs)
 }
 
 fn reference(tree: &Node, futs: &[u32]) -> (Sexp, Sexp) {
